@@ -610,9 +610,16 @@ fn systematic_hostile() -> &'static Vec<Mutant> {
         }
         // (2) defcfg: every option x boundary values
         let opts = keywords_from(&format!("{repo}/parser/src/cfg/defcfg.rs"), "arm");
+        // the option's value must reach its consumer, so the rest of the configuration uses the
+        // features the options configure (chords v2, sequences, overrides, virtual keys, zippychord,
+        // dynamic macros, mouse keys)
+        let rich = "(defsrc a b c d)\n(defvirtualkeys v1 x)\n(deflayer base (tap-hold 100 100 a lsft) sldr (dynamic-macro-record 1) (movemouse-up 5 5))\n(defchordsv2 (a b) c 50 all-released ())\n(defseq v1 (a b))\n(defoverrides (lsft a) (lsft 9))\n(defzippy z)\n";
         for o in &opts {
-            for v in ["yes", "no", "0", "1", "5", "65535", "65536", "-1", "()", "\"x\"", "(a b)", "abc", "", "(all-except)", "(all-except a ())"] {
+            for v in ["yes", "no", "0", "1", "2", "3", "4", "5", "6", "65535", "65536", "-1", "()", "\"x\"", "(a b)", "abc", "", "(all-except)", "(all-except a ())", "(all-except d a c)", "visible-backspaced", "hidden-suppressed", "hidden-delay-type", "recorded", "constant", "to-base-layer", "layer-stack"] {
                 push(&mut out, &format!("defcfg {o} {v}"), format!("(defcfg {o} {v})\n(defsrc a)\n(deflayer base a)\n"), vec![]);
+                // concurrent-tap-hold is a precondition of defchordsv2; keep it on unless it is the option under test
+                let pre = if o == "concurrent-tap-hold" { String::new() } else { "concurrent-tap-hold yes ".to_string() };
+                push(&mut out, &format!("defcfg {o} {v} (rich)"), format!("(defcfg {pre}{o} {v})\n{rich}"), vec![("z".into(), "ab\tx\n".into())]);
             }
         }
         // (3) top-level forms with degenerate bodies
@@ -684,6 +691,31 @@ fn systematic_hostile() -> &'static Vec<Mutant> {
                     t3.insert(i, toks[i]);
                     push(&mut out, &format!("{}: token {i} doubled", toks[0]), format!("(defsrc a b c)\n(deflayer base a b c)\n(deflayer l2 a b c)\n(defvirtualkeys s1 a s2 b)\n{}\n", t3.join(" ")), vec![("a".into(), "ab\tx\n".into())]);
                 }
+            }
+        }
+        // (4b) string shapes at every place that takes free text (incl. text built by concat / raw strings)
+        let shapes = ["\"\"", "\"a\"", "\"a b\"", "r#\"\"\"#", "r#\"a\"b\"#", "r#\"\"#", "r#\"\"\"\"#", "(concat r#\"\"\"#)", "(concat r#\"\"\"# r#\"\"\"#)", "(concat \"a\" r#\"\"\"#)", "(concat r#\"\"\"# a)", "(concat \"\" \"\")", "(concat)", "(concat (concat r#\"\"\"#))", "\"🔣\"", "r#\"🔣\"\"#"];
+        for sh in shapes {
+            for site in [
+                "(deflayer base (unicode $q))",
+                "(deflayer base (push-msg $q))",
+                "(deflayer base (layer-switch $q))",
+                "(deflayer base (cmd $q))",
+                "(deflayer base (clipboard-set $q))",
+                "(deflayer base (concat $q $q))",
+                "(deflayer base $q)",
+                "(deflayer base (macro $q))",
+                "(deflayer base a)\n(include $q)",
+                "(deflayer base a)\n(defzippy $q)",
+                "(deflayer base a)\n(defalias $q a)",
+                "(deflayer base a)\n(deflayer $q a)",
+                "(deflayer (base icon $q) a)",
+                "(deflayer base a)\n(deftemplate t (x) (defalias y (unicode $x)))\n(t! t $q)",
+                "(deflayer base a)\n(defvar w (concat $q $q))\n(defalias y (unicode $w))",
+            ] {
+                push(&mut out, &format!("string shape {sh} at {}", &site[..site.len().min(40)]), format!("(defvar q {sh})\n(defsrc a)\n{site}\n"), vec![]);
+                // and written in place instead of through a variable
+                push(&mut out, &format!("string shape {sh} in place at {}", &site[..site.len().min(40)]), format!("(defsrc a)\n{}\n", site.replace("$q", sh)), vec![]);
             }
         }
         // (5a) local keys at the edges of the code space, used in defsrc / deflayermap / actions
@@ -786,7 +818,7 @@ impl Check for C03Check {
         j.out
     }
     fn rule(&self) -> String {
-        format!("first block (identical for every seed): the systematic hostile family - every list-action keyword of parser/src/cfg/list_actions.rs (read from /repo at run time) x arity 0..5 x every argument kind and one odd slot in a plausible call; every defcfg option x boundary values; every top-level form with degenerate bodies; defvar reference graphs over three variables (self, mutual and longer cycles through atoms, lists, concat) with use sites; one valid instance of every top-level form / rich action with each token replaced by hostile atoms, deleted or doubled; zippychord dictionary files; lexical endings (unterminated string / raw string / block comment / parenthesis) at end of file followed by 1-4-byte characters, in the main and in an included file. Then: case = {MUTANTS_PER_CASE} texts derived from one seed text: every shipped sample config, every parser test config, every [source] block of docs/config.adoc (fragments wrapped with a minimal defsrc/deflayer), every config string literal in the test sources (all read from /repo at run time; this block of cases is identical for every VERIF_SEED), and grammar-generated valid configs (random part). Texts are produced by structure-aware mutation inside one top-level form (delete/duplicate/swap/splice sub-expressions, () for atoms, atoms for lists, boundary numbers, unknown and self-referential names, dropped/extra arguments, wrap/unwrap) and by byte-level mutation (insert/delete/flip/truncate, multi-byte characters, unterminated strings/comments); included files are damaged, emptied, removed or replaced by a directory. Bounds: <= 64 KiB, parenthesis depth <= 64. Both entry points (new_from_str with a file map, new_from_file on a scratch directory). Non-trivial/distinct = distinct (seed, mutation kinds, head of mutated form) descriptions and distinct diagnostic messages.")
+        format!("first block (identical for every seed): the systematic hostile family - every list-action keyword of parser/src/cfg/list_actions.rs (read from /repo at run time) x arity 0..5 x every argument kind and one odd slot in a plausible call; every defcfg option x boundary values (alone and in a configuration that uses the features the options configure); string shapes (empty, raw, lone quote built by concat, multi-byte) at every place that takes free text; every top-level form with degenerate bodies; defvar reference graphs over three variables (self, mutual and longer cycles through atoms, lists, concat) with use sites; one valid instance of every top-level form / rich action with each token replaced by hostile atoms, deleted or doubled; zippychord dictionary files; lexical endings (unterminated string / raw string / block comment / parenthesis) at end of file followed by 1-4-byte characters, in the main and in an included file. Then: case = {MUTANTS_PER_CASE} texts derived from one seed text: every shipped sample config, every parser test config, every [source] block of docs/config.adoc (fragments wrapped with a minimal defsrc/deflayer), every config string literal in the test sources (all read from /repo at run time; this block of cases is identical for every VERIF_SEED), and grammar-generated valid configs (random part). Texts are produced by structure-aware mutation inside one top-level form (delete/duplicate/swap/splice sub-expressions, () for atoms, atoms for lists, boundary numbers, unknown and self-referential names, dropped/extra arguments, wrap/unwrap) and by byte-level mutation (insert/delete/flip/truncate, multi-byte characters, unterminated strings/comments); included files are damaged, emptied, removed or replaced by a directory. Bounds: <= 64 KiB, parenthesis depth <= 64. Both entry points (new_from_str with a file map, new_from_file on a scratch directory). Non-trivial/distinct = distinct (seed, mutation kinds, head of mutated form) descriptions and distinct diagnostic messages.")
     }
     fn assumptions(&self) -> Vec<String> {
         vec![
